@@ -472,6 +472,10 @@ def type_and_value(draw, cfg=None):
     d = D(draw, c)
     if c['choice'] and c['defaults'] and c['tags'] and c['implicit'] and not c.get('root_kinds') and d.pct(c.get('choice_default_pct', 3)):
         return choice_default_case(d)
+    if c['choice'] and c['tags'] and not c.get('root_kinds') and c['max_depth'] >= 2 and d.pct(c.get('directed_pct', 2)):
+        return nested_choice_set_case(d)
+    if c['tags'] and c['implicit'] and not c.get('root_kinds') and c['max_depth'] >= 2 and d.pct(c.get('directed_pct', 2)):
+        return shared_base_case(d)
     T = draw_type(d)
     v = draw_value(d, T)
     return T, v
@@ -592,4 +596,31 @@ def choice_default_case(d):
                               {'name': 'r', 't': ir.mk(k, tags=[['E', 'C', 1]])}])
     T = ir.mk(d.pick(['SEQUENCE', 'SET']), comps=[ir.comp('x', ir.mk('INTEGER', tags=[['I', 'C', 5]])), ir.comp('c', C, 'def', ('p', inner))])
     v = {'x': d.int(-3, 300), 'c': (d.pick(['p', 'q', 'r']), inner if d.pct(70) else draw_value(d, ir.mk(k)))}
+    return T, v
+
+
+def nested_choice_set_case(d, selfdesc=False):
+    """A SET whose DER order depends on the alternative selected TWO levels down in untagged CHOICEs (the alternatives p, q of
+    the inner CHOICE lie on either side of the tag of member a). -> (T, v)"""
+    pool = ['BOOLEAN', 'INTEGER', 'OCTETSTRING', 'NULL', 'OID', 'UTF8String', 'IA5String', 'PrintableString', 'VisibleString', 'BMPString']
+    ks = sorted(d.draw(st.lists(st.sampled_from(pool), min_size=3, max_size=3, unique=True)), key=lambda k: ir.UNIVERSAL[k])
+    inner = ir.mk('CHOICE', alts=[{'name': 'p', 't': ir.mk(ks[0])}, {'name': 'q', 't': ir.mk(ks[2])}])
+    outer = ir.mk('CHOICE', alts=[{'name': 'x', 't': inner}, {'name': 'y', 't': ir.mk('INTEGER', tags=[['E', 'C', 7]])}])
+    T = ir.mk('SET', comps=[ir.comp('a', ir.mk(ks[1])), ir.comp('b', outer)])
+    sel = d.pick(['p', 'q'])
+    v = {'a': draw_value(d, T['comps'][0]['t']), 'b': ('x', (sel, draw_value(d, inner['alts'][0 if sel == 'p' else 1]['t'])))}
+    return T, v
+
+
+def shared_base_case(d):
+    """One constructed type used three times in a record: as it is, IMPLICITly and EXPLICITly tagged (build.schema derives the
+    tagged variants from ONE base object, as a module-level type is used in practice). -> (T, v)"""
+    base = draw_type(D(d.draw, dict(d.cfg, tags=False, any=False)), 1, root=False, allow_any=False)
+    if base['k'] not in ir.CONSTRUCTED_KINDS or base['k'] in ('SET', 'SETOF'):
+        base = ir.mk('SEQUENCE', comps=[ir.comp('x', ir.mk('INTEGER')), ir.comp('y', ir.mk('OCTETSTRING'), 'opt')])
+    cp = lambda tags: dict(ir.from_jsonable(ir.to_jsonable(base)), tags=tags, share='base')
+    T = ir.mk('SEQUENCE', comps=[ir.comp('p', cp([[ 'I', 'C', 0]])), ir.comp('q', cp([['E', 'C', 1]])), ir.comp('r', cp([]), 'opt')])
+    v = {'p': draw_value(d, base), 'q': draw_value(d, base)}
+    if d.pct(70):
+        v['r'] = draw_value(d, base)
     return T, v
